@@ -25,7 +25,8 @@ ASSUMPTIONS = ["traces contain no addresses: graph instances are numbered per ru
                "g++-12 -O1 (and -fsanitize=thread for the thorough tier) build of the working tree with harness-side shims"]
 FLOORS = {"context_comparisons": {"quick": 500, "thorough": 4500}, "reused_builder_runs": {"quick": 100, "thorough": 1200},
           "concurrent_case_runs": {"quick": 150, "thorough": 2000}, "global_state_reads": {"quick": 500, "thorough": 3000}, "captured_error_values": {"quick": 15, "thorough": 200},
-          "polymorphic_values_compared": {"quick": 60, "thorough": 400}}
+          "polymorphic_values_compared": {"quick": 60, "thorough": 400},
+          "recordings_repeated_over_carried_state": {"quick": 10, "thorough": 60}}
 
 
 def gen_cases(rng, n, seed):
@@ -61,6 +62,21 @@ def gen_cases(rng, n, seed):
             c = gen_case12(rng, f"c07_{seed}_{k}", k)          # switch: dynamic children
         elif r == 6:
             c = gen_case11(rng, f"c07_{seed}_{k}", k)          # reduce: combiner trees
+        elif r == 7 and k % 20 == 17:
+            # the SAME recording program run twice over a carried GlobalState (the second run starts from what the first one left
+            # under its key): both layouts of the harness recorder must leave the same buffer after either run
+            from .gen_coll import gen_cscript
+            from .prog import Case
+            sh = rng.choice(["ts", "tss", "tsd", "tsl", "tsb"])
+            c = Case(f"c07_{seed}_{k}", 0, rng.choice([12, 20]))
+            c.cscripts[1] = gen_cscript(rng, sh, 0, c.end)
+            body = [S("d", "csrc", shape=sh, uid=1), S("", "crecord", "d", key="ra", sparse=1), S("", "crecord", "d", key="rb")]
+            c.graphs["main"] = body
+            c.graphs["main2"] = [S(st.dst, st.op, *st.args, **st.kw) for st in body]
+            c.graphs["main3"] = [S(st.dst, st.op, *st.args, **st.kw) for st in body]
+            c.opts["gsdump"] = "ra,rb"
+            c.meta["staged"] = 1
+            c.meta["rerecord"] = 1
         elif r == 7:
             c = gen_case20(rng, f"c07_{seed}_{k}")             # record -> replay through GlobalState buffers (staged runs)
             c.meta["staged"] = 1
@@ -151,6 +167,21 @@ def main(tier, seed, replay):
     counters["global_state_reads"] = sum(t.count("\nu.gs ") for t in ref.values())
     counters["captured_error_values"] = sum(t.count("\nu.err ") for t in ref.values())
     counters["polymorphic_values_compared"] = sum(t.count("\nPOLY ") for t in ref.values())
+
+    for c in cases:
+        if c.meta.get("rerecord") and c.name in ref:
+            gs = {}
+            for m in re.finditer(r"^GS (\d+) (\S+) (\S+)$", ref[c.name], flags=re.M):
+                gs[(int(m.group(1)), m.group(2))] = m.group(3)
+            for key in ("ra", "rb"):
+                vals = [gs.get((st, key)) for st in (0, 1, 2)]
+                if vals[0] is None:
+                    continue
+                counters["recordings_repeated_over_carried_state"] = counters.get("recordings_repeated_over_carried_state", 0) + 1
+                if not (vals[0] == vals[1] == vals[2]):
+                    V.append((c.name, f"the same recording program run three times over a carried GlobalState leaves different buffers under "
+                                      f"'{key}' ({'sparse' if key == 'ra' else 'cycle-aligned'} layout): sizes {[len(v or '') for v in vals]}, e.g. "
+                                      f"{(vals[0] or '')[:80]} | {(vals[1] or '')[:80]}"))
 
     def compare(ctx, got, names=None):
         for name in (names or ref):
